@@ -295,6 +295,12 @@ pub trait Property: Sync + Send {
     ) -> bool {
         false
     }
+    /// May a failing case additionally be minimised on its serialised form
+    /// (dropping list elements / fields, shortening strings)? Only sound when
+    /// the oracle does not rely on generator invariants.
+    fn json_shrinkable(&self) -> bool {
+        false
+    }
 }
 
 /// Type-erased part of a check.
@@ -307,6 +313,7 @@ pub trait Part: Sync + Send {
     fn run_case_json(&self, case: &Value, ctx: &mut Ctx) -> Result<Verdict, String>;
     /// returns (had an enumeration, first failing case)
     fn enumerate(&self, tier: Tier, shard: usize, nshards: usize, ctx: &mut Ctx) -> (bool, Option<(Value, Failure)>);
+    fn json_shrinkable(&self) -> bool;
 }
 
 pub struct Gen<P: Property>(pub P);
@@ -368,6 +375,9 @@ impl<P: Property> Part for Gen<P> {
         let case: P::Case = serde_json::from_value(case.clone()).map_err(|e| e.to_string())?;
         Ok(self.run_case(&case, ctx))
     }
+    fn json_shrinkable(&self) -> bool {
+        self.0.json_shrinkable()
+    }
     fn enumerate(&self, tier: Tier, shard: usize, nshards: usize, ctx: &mut Ctx) -> (bool, Option<(Value, Failure)>) {
         let mut failed: Option<(Value, Failure)> = None;
         let had = self.0.enumerate(tier, shard, nshards, &mut |case| {
@@ -382,6 +392,101 @@ impl<P: Property> Part for Gen<P> {
         });
         (had, failed)
     }
+}
+
+/// One-step simplifications of a JSON value (smaller first).
+fn json_candidates(v: &Value) -> Vec<Value> {
+    let mut out = Vec::new();
+    match v {
+        Value::Array(a) => {
+            if a.len() > 1 {
+                out.push(Value::Array(a[..a.len() / 2].to_vec()));
+                out.push(Value::Array(a[a.len() / 2..].to_vec()));
+            }
+            for i in (0..a.len()).rev() {
+                let mut b = a.clone();
+                b.remove(i);
+                out.push(Value::Array(b));
+            }
+            for i in 0..a.len() {
+                for c in json_candidates(&a[i]) {
+                    let mut b = a.clone();
+                    b[i] = c;
+                    out.push(Value::Array(b));
+                }
+            }
+        }
+        Value::Object(m) => {
+            for k in m.keys() {
+                let mut n = m.clone();
+                n.remove(k);
+                out.push(Value::Object(n));
+            }
+            for (k, x) in m {
+                for c in json_candidates(x) {
+                    let mut n = m.clone();
+                    n.insert(k.clone(), c);
+                    out.push(Value::Object(n));
+                }
+            }
+        }
+        Value::String(s) => {
+            if !s.is_empty() {
+                out.push(Value::String(String::new()));
+                let cs: Vec<char> = s.chars().collect();
+                if cs.len() > 1 {
+                    out.push(Value::String(cs[..cs.len() / 2].iter().collect()));
+                    out.push(Value::String(cs[cs.len() / 2..].iter().collect()));
+                    out.push(Value::String(cs[..cs.len() - 1].iter().collect()));
+                }
+            }
+        }
+        Value::Number(n) => {
+            if let Some(u) = n.as_u64() {
+                if u != 0 {
+                    out.push(json!(0));
+                    out.push(json!(u / 2));
+                    out.push(json!(u - 1));
+                }
+            } else if let Some(i) = n.as_i64() {
+                if i != 0 {
+                    out.push(json!(0));
+                    out.push(json!(i / 2));
+                }
+            }
+        }
+        Value::Bool(true) => out.push(Value::Bool(false)),
+        _ => {}
+    }
+    out
+}
+
+/// Greedy minimisation of a failing case on its serialised form, keeping the
+/// failure signature.
+fn json_shrink(part: &dyn Part, id: &'static str, tier: Tier, known: &Known, case: Value, failure: Failure) -> (Value, Failure) {
+    let start = Instant::now();
+    let mut best = case;
+    let mut best_f = failure;
+    let mut evals = 0usize;
+    'outer: loop {
+        for cand in json_candidates(&best) {
+            if evals > 20_000 || start.elapsed().as_secs() > 60 {
+                break 'outer;
+            }
+            evals += 1;
+            let mut ctx = Ctx::new(id, tier, 0, known.clone());
+            ctx.frozen = true;
+            if let Ok(Verdict::Fail(f)) = part.run_case_json(&cand, &mut ctx) {
+                if f.signature == best_f.signature {
+                    best = cand;
+                    best_f = f;
+                    continue 'outer;
+                }
+            }
+        }
+        break;
+    }
+    (best, best_f)
 }
 
 pub struct Check {
@@ -732,8 +837,15 @@ pub fn main_for(lookup: impl Fn(&str) -> Option<Check>) -> ! {
         );
         parts_ev.push(part_evidence(part.as_ref(), &c, had_enum, budget));
         total.merge(c);
-        if v.is_some() {
-            violation = v;
+        if let Some(mut v) = v {
+            if part.json_shrinkable() && !v.case.is_null() {
+                let (case, failure) = json_shrink(part.as_ref(), check.id, tier, &known, v.case.clone(), v.failure.clone());
+                v.case = case;
+                v.failure = failure;
+                // the tape no longer corresponds to the minimised case
+                v.tape = None;
+            }
+            violation = Some(v);
             break;
         }
     }
